@@ -47,6 +47,7 @@ Verdict(c) ==
       c18_line |-> IF C18_IndentOK(c.lines) THEN [kind |-> "-", ind |-> 0, open_ind |-> 0] ELSE c.lines[FirstBadLine(c.lines)],
       c06_pre |-> LineLevelComments(c.inp),
       c06 |-> c.o1 = c.o2,
+      c06_test |-> ~c.err2,          \* "... so `nima test' accepts it": the library does not flag its own output as erroneous
       c02 |-> c.t0 = c.o1 /\ c.inp = c.out ]        \* canonical mode: the transducer is the identity
 Judge == /\ pt = 1 /\ pc = 1 /\ out = <<>>
          /\ PrintT(ToJson(Verdict(Cases[tid])))
